@@ -65,13 +65,10 @@ def build():
         ("T-THREAD", r"thread::spawn\((?!(?:move )?\|\| \{)", spawn_guard, None),
         ("T-THREAD", r"\.accept\((?P<a>[^()]*)\)", r".accept(\g<a>, Ghost(in_conn_thread__))", None),
         ("T-THREAD", r"\b(?:std::)?process::exit\(", "crate::vnet::process_exit(", None),
+        # the unix socket that is bound is checked against the address tacd was given, whatever the local is called
+        ("T-THREAD", r"UnixListener::bind\((?P<a>[^()]*)\)", r"UnixListener::bind_path(\g<a>, Ghost(addr_given__))", None),
     ], at=[("before_stmt_re", r"let \w+ = &listen_addr\[", 1, 'proof { reveal_strlit("unix:"); }'),
-           ("before_stmt_re", r"UnixListener::bind\(", 1, """
-        proof {
-            // `unix:PATH` listens on PATH: what follows the prefix, all of it
-            reveal_strlit("unix:");
-            assert(listen_addr@ == addr_given__.skip(5)); //@C16.the_unix_socket_is_the_path_after_the_prefix,C17.the_unix_socket_is_the_path_after_the_prefix
-        }"""),
+           ("before_stmt_re", r"UnixListener::bind", 1, 'proof { reveal_strlit("unix:"); }'),
            ("loop_start", None, 1, LOOP_START), ("loop_end", None, 1, LOOP_END),
            ("loop_start", None, 2, LOOP_START), ("loop_end", None, 2, LOOP_END)])})
     return u
